@@ -41,7 +41,7 @@ checks = {}
 for part in filter(None, res.split(";")):
     c, rc, v, nf, oracle = part.split(":", 4)
     checks[c] = {"exit": int(rc), "violation_lines": int(v), "of_which_no_failing_input_found": int(nf), "first_oracle": oracle,
-                 "verdict": "missed" if int(rc) == 0 else ("caught, concrete failing input" if int(v) > int(nf) else "caught by broken correspondence only (no-failing-input-found)")}
+                 "verdict": "missed" if int(rc) == 0 else ("error (check exited %s without a VIOLATION line)" % rc if int(v) == 0 else ("caught, concrete failing input" if int(v) > int(nf) else "caught by broken correspondence only (no-failing-input-found)"))}
 m["verified"] = {"repo_head": head, "demo_exit_clean_tree": int(c0), "demo_exit_with_patch": int(c1), "suite_with_patch": suite.strip(),
                  "commands": ["PYTHONPATH=<worktree>/src python demo.py  (clean, then patched)",
                               "PYTHONPATH=<worktree>/src python -m pytest -q -p no:cacheprovider -n 8 --timeout=900  (patched)",
